@@ -328,3 +328,4 @@ package labels
 //@   invariant loop 4: (!multiForeground ==> len(indices) == 1 && has(indices, labelIndex)) && (multiForeground ==> len(indices) > 1)
 //@   assert at "data[0] = 1": numSBLabels == 1 ==> has(indices, curIndices[0])
 //@   assert at "data[0] = 0": numSBLabels == 1 ==> !has(indices, curIndices[0])
+//@   assert at "bitpos += bits": ((data[outbytepos] & bitMask[outbitpos%8]) != 0) == curForeground
